@@ -208,8 +208,10 @@ package ptrace
 // C03/C04: the ptrace runner launches with ptrace enabled and exactly the caller's filter (so the child
 // attaches itself and stops before the filter is loaded), and the tracer consults exactly the caller's
 // policy through tracerHandler.
-//@ func runner/ptrace.(*Runner).Run props C03 C04
+//@ func runner/ptrace.(*Runner).Run props C03 C04 C15
 //@   arith int
 //@   requires r != nil && len(r.Seccomp) <= 65535
+//@   ensures @C15 @C04 len(r.Seccomp) == 0 ==> int(result.Status) == 8 && len(result.Error) > 0
+//@   callsite Trace: assert @C15 @C04 len(r.Seccomp) >= 1
 //@   callsite Trace: assert @C04 t.Runner == ch && ref_as(ch, forkexec.Runner) != nil && ref_as(ch, forkexec.Runner).Ptrace && !ref_as(ch, forkexec.Runner).StopBeforeSeccomp && (len(r.Seccomp) == 0 <==> ref_as(ch, forkexec.Runner).Seccomp == nil)
 //@   callsite Trace: assert @C03 t.Handler == th && ref_as(th, tracerHandler) != nil && ref_as(th, tracerHandler).Handler == r.Handler && ref_as(th, tracerHandler).Unsafe == r.Unsafe
